@@ -6,6 +6,7 @@ import (
 	"regexp"
 	"strconv"
 	"strings"
+	"unicode/utf8"
 
 	"github.com/expr-lang/expr"
 	"github.com/expr-lang/expr/vm"
@@ -125,6 +126,12 @@ func tryFastCompare(expression string) *fastCompare {
 		return &fastCompare{field: m[1], op: m[2], numLit: n}
 	}
 	if m := fastFieldOpStr.FindStringSubmatch(expression); m != nil {
+		// expr-lang unescapes string literals (\\, \n, \x41, ...), normalizes a carriage return
+		// to a newline and replaces invalid UTF-8 by U+FFFD. The raw text between the quotes is
+		// the literal's value only when none of that applies.
+		if strings.ContainsAny(m[3], "\\\r") || !utf8.ValidString(m[3]) {
+			return nil
+		}
 		return &fastCompare{field: m[1], op: m[2], strLit: m[3], isString: true}
 	}
 	return nil
